@@ -33,8 +33,9 @@ func strideRules(c *props.Ctx, p *c09path, blockSite *site) {
 	name := blockSite.name
 	// cell loops
 	x := &xb{c: c, s: blockSite, p: p}
-	e0 := blockSite.m.eval(nil)
-	d := blockSite.evalVec(e0, e0.slotVals(blockSite.P, 0)[0].val)
+	e0 := blockSite.root()
+	pv := e0.slotVals(blockSite.P, 0)[0]
+	d := blockSite.evalVec(pv.ev(e0), pv.val)
 	for a := 0; a < 3; a++ {
 		key := fmt.Sprintf("%s#cellLoop%c", name, "XYZ"[a])
 		if !d.comps {
@@ -109,6 +110,7 @@ func strideRules(c *props.Ctx, p *c09path, blockSite *site) {
 	}
 	wfn, cp := writers(c, p, blockSite, S, storage)
 	rangeRules(c, p, S, wfn, cp)
+	extraRules(c, p, blockSite, storage, wfn)
 }
 
 // sliceLen: constant length of a freshly made slice.
@@ -227,7 +229,7 @@ func writers(c *props.Ctx, p *c09path, bs *site, S int64, storage *types.Var) (*
 	var wfn *ssa.Function
 	var wcp *ssa.Parameter
 	for _, fn := range p.order {
-		if fn == bs.fn || fn == p.index {
+		if fn == bs.fn || fn == bs.blockFnOrSelf() || fn == p.index {
 			continue
 		}
 		m := newSlotModel()
